@@ -125,6 +125,7 @@ def run(ctx: common.Ctx) -> None:
         "worker = child sub-reaper: the daemon's exit is observed with waitpid; a zombie counts as exited "
         "(pid 1 of this sandbox does not reap, which makes the repository's alive() say True for dead daemons)",
         "SIGKILL stop paths are executed but not judged (no code can run)",
+        "every daemon is started with --timeout 900 (idle shutdown) as a safety net against leaked daemons; the idle-timeout stop path uses --timeout 1",
         "zero-length messages are not part of the framing workload (read_bytes reports them like end-of-stream by design)",
         "watchdogs: 20 s per hostile socket operation, 60 s per status request; a daemon alive but refusing 3 status requests 10 s apart is 'unresponsive'",
     ]
